@@ -46,6 +46,14 @@ class Indicator(NamedUIDObject):
         super().__init__(**data)
         self._indicator_variable = z3.Int(f"Indicator_{self.name}")
 
+        # bounds given by the user are constraints over the indicator value
+        if self.bounds is not None:
+            lower_bound, upper_bound = self.bounds
+            if lower_bound is not None:
+                self.append_z3_assertion(self._indicator_variable >= lower_bound)
+            if upper_bound is not None:
+                self.append_z3_assertion(self._indicator_variable <= upper_bound)
+
         processscheduler.base.active_problem.add_indicator(self)
 
 
